@@ -169,8 +169,8 @@ class ProgressIndicator(object):
         Overwrites a previous message to the output.
         """
         if self._io.supports_ansi():
-            self._io.write("\x0D\x1B[2K")
-            self._io.write(message)
+            # A single write: another thread's frame must not get in between
+            self._io.write("\x0D\x1B[2K" + message)
         else:
             self._io.write_line(message)
 
